@@ -376,6 +376,7 @@ func (m *Model) eval(e *gen.Expr, o int, st mstore) (bool, int, mstore) {
 	if m.memoOn {
 		key := fmt.Sprintf("E%d@%d", e.ID, o)
 		if h, ok := m.memo[key]; ok {
+			m.tick() // a loop whose every iteration is a hit must still run into the model's bound
 			return h[0] == 1, h[1], st
 		}
 		ok, end, st2 := m.evalNode(e, o, st)
